@@ -392,6 +392,7 @@ def run(ctx):
         _extra.check_end_of_data(ck, prog, config, 'C01-j')
         # ---- k  unzck never opens its own input for writing
         _extra.check_no_self_overwrite(ck, prog, config, 'C01-k')
+        _extra.check_hash_owners(ck, prog, config, 'C01-m')
         # ---- l  the reader's scratch block holds what is read into it, for every request size
         from ..rules import extent as _ext
         _ext.check_buffer_extents(ck, prog, config, 'C01-l', only=('comp_read', 'chunks_from_temp'))
